@@ -7,6 +7,9 @@ props = [json.loads(l) for l in open('/verif/properties.jsonl')]
 
 # id -> (technique, level text, level note, design ref)
 CHECKS = {
+ "C06": ("bounded exhaustive program enumeration (F-types incl. second analysed file and both root shapes, F-union, F-enum) with a structured scan of the Dart files (dartscan) compared with go/types",
+         "every program within 2 / 3 deviations: constructor arity and order, implements clauses, union dispatch (cases, is-branches, Kind strings), enum value tables / index mapping, every identifier each file uses defined exactly once in it or in one imported generated file, no self-import, one file per package",
+         "Dart is not executed (no SDK offline); struct JSON keys are decided in C09", "DESIGN.md §4 C06"),
  "C09": ("bounded exhaustive program enumeration (F-types, full tag and embedding alphabet) with encoding/json itself as oracle through reflect.StructOf twins, plus metamorphic pairs (program, program without its ignored field)",
          "every struct of every program within 2 / 3 deviations: Exported()/JSONName() equal the keys encoding/json emits (minus gomacro:\"ignore\"), the keys read back from the TypeScript, Dart and validator texts equal that list, and the three outputs are unchanged when an ignored field is removed",
          "key conflicts (two fields with one JSON name) are outside the alphabet", "DESIGN.md §4 C09"),
